@@ -70,6 +70,13 @@ def run_shard(ctx, shard):
             kind, rows = 'circle', list(rng.choice(circles))
         else:
             kind, rows = gen.diagram(rng, circles, allow_quotes=True, allow_braces=True)
+        if rng.random() < 0.1 and rows:
+            # a tab is a blank that occupies one column, wherever it stands
+            y = rng.randrange(len(rows))
+            x = rng.randint(0, len(rows[y]))
+            rows = list(rows)
+            rows[y] = rows[y][:x] + '\t' + rows[y][x:]
+            kind = kind + '_tab'
         k = rng.choice(KS) if rng.random() < 0.7 else rng.randint(0, 400)
         n = rng.choice(NS) if rng.random() < 0.7 else rng.randint(0, 200)
         case = {'rows': rows, 'k': k, 'n': n, 'kind': kind}
